@@ -22,7 +22,8 @@ RULE = (
     "(B = read-buffer size, 8192 or patched to 1,2,3,5,7,8,16,64,100,4096) in filler (zeros, random, 4-grams, "
     "near-miss truncated headers, the bytes 01 00 01 00 02 00 at offset 0), in a raw file, a PE .data section or a "
     "XorEncoded PE stage (any stub <= 1000, nonce, marker/size field, optional raw-level decoy block in the stub); "
-    "key modes default / caller list / all 256; entry points from_bytes, from_file, from_path. Oracle: reference "
+    "key modes default / caller list / all 256; entry points from_bytes, from_file, from_path; plus the seven real sample "
+    "beacons (frozen facts) and blocks placed beyond 64/128/256 KiB. Oracle: reference "
     "extraction on the known plaintext view(s): XorEncoded view first, then raw; keys in priority order; first "
     "occurrence in file order; ValueError iff no tried key has a header. Non-trivial: a block is found and "
     "(offset > 0 or container != raw) and it has >= 2 settings. Distinct by content."
@@ -370,7 +371,75 @@ def sweep_execute(case, stats):
     execute(full, stats)
 
 
+# ------------------------------------------------------------------------------------------ real samples and large payloads
+def big_enumerate(tier, shard, nshards):
+    from .. import samples
+    from ..runner import shard_iter
+
+    def gen():
+        for name in sorted(samples.NAMES):
+            yield {"kind": "sample", "name": name, "mode": "keys"}
+        for name in ("beacon_custom_xorkey", "dns_beacon"):
+            yield {"kind": "sample", "name": name, "mode": "all"}
+        for off in (65529, 65536, 100000, 131071, 262144 - 3):
+            for container in ("raw", "xorpe"):
+                yield {"kind": "large", "offset": off, "container": container, "key": 0x2E if off % 2 else 0x69}
+
+    return shard_iter(gen(), shard, nshards)
+
+
+def big_execute(case, stats):
+    from dissect.cobaltstrike.beacon import BeaconConfig
+
+    if case["kind"] == "sample":
+        from .. import samples
+        from ..ref import anchor_samples as A
+
+        name = case["name"]
+        meta = A.fixture()[name]
+        data = samples.sample(name)
+        if case["mode"] == "keys":
+            r = lib(BeaconConfig.from_bytes, data, xor_keys=samples.SAMPLE_KEYS, what=f"from_bytes({name})")
+        else:
+            r = lib(BeaconConfig.from_bytes, data, all_xor_keys=True, what=f"from_bytes({name}, all_xor_keys)")
+        if not meta["guardrails"]:
+            eq(r.xorkey, meta["xorkey"], "sample:xorkey", f"{name}: xor key")
+            eq(bytes(r.config_block), A.sample_block(name), "sample:config_block", f"{name}: configuration block vs reference extraction")
+        eq(r.xorencoded, meta["xorencoded"], "sample:xorencoded", f"{name}: xorencoded flag")
+        eq(lib(lambda: r.setting_enums), meta["setting_enums"], "sample:setting_enums", f"{name}: setting indices in order")
+        got = [(s_.index.value, s_.type.value, s_.length, bytes(s_.value)) for s_ in r.settings_tuple]
+        eq(got, tlv.decode(bytes(r.config_block)), "sample:settings", f"{name}: settings vs reference decoding of the block")
+        stats.note(case, True, classes=["real_sample_" + case["mode"]])
+        return
+    # a block far into a large payload (beyond 64 KiB / 128 KiB / 256 KiB)
+    rnd = random.Random(case["offset"])
+    plain = tlv.encode([(1, SHORT, b"\x00\x08"), (2, SHORT, b"\x01\xbb"), (37, INT, struct.pack(">I", case["offset"]))], pad_to=4096)
+    ob = tlv.xor1(plain, case["key"])
+    filler = bytes(b if b != 0xFF else 0xFE for b in rnd.randbytes(case["offset"]))
+    if case["container"] == "raw":
+        data = filler + ob + rnd.randbytes(100)
+        views = [("raw", data, False)]
+    else:
+        img, info = pebuild.build_pe(arch="x64", sections=((".text", b"\xcc" * 64), (".data", b"")))
+        base = info["sections"][1]["raw_ptr"]
+        area = filler[: max(0, case["offset"] - base)] + ob + rnd.randbytes(100)
+        img, info = pebuild.build_pe(arch="x64", sections=((".text", b"\xcc" * 64), (".data", area)))
+        data = xorenc.build_stage(img, b"\x9a\x02\x7c\x41", b"\xfc" * 40, marker=True)
+        views = [("xor", img, True), ("raw", data, False)]
+    must, may = detect.validating(data)
+    if (case["container"] == "raw" and (must or may)) or detect.marker_count(data) > 8:
+        raise Discard("ambiguous detection")
+    want = ref_extract(views, list(DEFAULT_KEYS), False)
+    r = lib(BeaconConfig.from_bytes, data, what="from_bytes(large payload)")
+    name, k, pos = want[1][0]
+    v = dict((n, vv) for n, vv, _ in views)[name]
+    eq(bytes(r.config_block), tlv.xor1(v[pos : pos + 4096], k), "extract:wrong_block", f"block at offset {pos} of a {len(data)}-byte {case['container']} payload")
+    eq((r.xorkey, r.xorencoded), (bytes([k]), name == "xor"), "extract:wrong_key", "key / xorencoded flag of the large payload")
+    stats.note(case, True, classes=["large_" + case["container"]])
+
+
 SUBS = [
+    Sub("real_samples_and_large_payloads", big_execute, enumerate=big_enumerate, exhaustive=True),
     Sub("extract", execute, strategy=case_strategy, examples={"quick": 2400, "thorough": 48000}),
     Sub("boundary_sweep", sweep_execute, enumerate=sweep_enumerate, exhaustive=True),
 ]
